@@ -87,6 +87,35 @@ def site (name : String) (params : List String) (entries : List (List String)) (
     let spec := chars.map (fun c => String.ofList [c, '='] ++
       (match stands c with | [] => "*" | [x] => String.ofList [x] | xs => "{" ++ String.ofList xs ++ "}"))
     judge (tags ++ tagIf (chars.contains 'X' && !nucl) "has-X" ++ tagIf nucl "nucleotides" ++ tagIf (nodupKeys c2i) "nodupkeys-c2i") impl spec model "asr tip states"
+  | "append" =>
+    -- params: the receiver map "key=site"; entries: the appended map in Go's iteration order
+    let parseKV (x : String) : String × Mut := match x.splitOn "=" with
+      | [k, v] => (k, { Mut.zero with site := v.toNat?.getD 0 })
+      | _ => (x, Mut.zero)
+    let m := params.map parseKV
+    let l : List (String × Mut) := es.map (fun e => (e.1, { Mut.zero with site := e.2.toNat?.getD 0 }))
+    let allKeys := sortS ((m.map (·.1)) ++ (l.map (·.1)))
+    let model := match mutAppend m l with
+      | none => ["err"]
+      | some f => "ok" :: allKeys.filterMap (fun k => (f k).map (fun v => k ++ "=" ++ toString v.site))
+    let spec := if l.any (fun e => (m.map (·.1)).contains e.1) then ["err"]
+      else "ok" :: allKeys.filterMap (fun k => ((m ++ l).lookup k).map (fun v => k ++ "=" ++ toString v.site))
+    judge (tags ++ tagIf (impl == ["err"]) "append-duplicate" ++ tagIf (m.isEmpty) "append-to-empty") impl spec model "MutationList.Append"
+  | "acralphabet" =>
+    judge tags impl (sortS (es.map (·.2)).eraseDups) (acrAlphabet es) "ParsimonyAcr alphabet"
+  | "chardist" =>
+    match T.undump (params.headD "") with
+    | none => bad "C18.site-chardist dump"
+    | some t =>
+      let len := ((es.headD ("", "")).2).length
+      let run (ord : List (Char × Nat) → List (Char × Nat)) : List String :=
+        sortS ((List.range len).flatMap (fun j =>
+          let charOf (nm : String) : Char := (((es.lookup nm).getD "").toList.drop j).headD '?'
+          (countMutationsSite charOf ord t).map (fun m => toString j ++ " " ++ m.child ++ " " ++ m.parent.toString ++ " " ++
+            m.cur.toString ++ " " ++ toString m.ntips ++ " " ++ toString m.nid)))
+      let model := run id
+      judge (tags ++ tagIf (run List.reverse == model) "iteration-order-irrelevant" ++ tagIf (model.length ≥ 8) "many-mutations")
+        impl model model "CountMutations (character distributions)"
   | _ => bad ("C18.site: unknown site " ++ name)
 
 def handle (op : String) (f : List String) : Verdict :=
